@@ -15,10 +15,15 @@
 
   Copy independence: the model has value semantics, so "a later edit inside the copy never
   shows at the source" holds in it by construction; on the implementation it is established by
-  the harness (probe edit after every successful copy + step-by-step agreement) — partial by tie.
+  the harness (probe edit after every successful copy + step-by-step agreement) — partial by tie —
+  and, at POINTER level, by the heap theorems at the end of this file (`heap_copy_*`,
+  `heap_move_same_node`, `heap_add_stores_value_node`, `heap_patch_failure_restores`) over
+  YtkModel/HeapPatch.lean, tied to the code by the sharing-map correspondence of
+  harness/heap_share2.go (kind heap-patch).
 -/
 import YtkModel.Generated.Constants
 import YtkProofs.Patch
+import YtkProofs.HeapPatch
 
 namespace Ytk.C09
 open Ytk.Ptr Ytk.Patch
@@ -223,5 +228,183 @@ theorem source_constants :
     Generated.const? "patch.OpAdd" = some "add" ∧ Generated.const? "patch.OpRemove" = some "remove" ∧
     Generated.const? "patch.OpReplace" = some "replace" ∧ Generated.const? "patch.OpMove" = some "move" ∧
     Generated.const? "patch.OpCopy" = some "copy" ∧ Generated.const? "patch.OpTest" = some "test" := by decide
+
+
+/-! ## Pointer level: patch on the heap model (YtkModel/HeapPatch.lean)
+
+  The document is a root ADDRESS in a heap of cells; `patchDoH` has the shape of `patchDo`, with
+  `setAt` replaced by an in-place write of the ONE cell `Path.Eval` located.  Sharing facts read
+  off patch/patch.go + utils.go: add / replace attach the caller's value node ITSELF; copy attaches
+  a Clone (all cells new); move detaches and re-attaches THE SAME node (no allocation) and adds it
+  back at `from` when the add at `path` fails; insertListItem / removeListItem rebuild the item
+  slice of the one list cell from the old item nodes (no copies). -/
+
+section heap
+open Ytk.Heap
+
+/-- ADD / REPLACE STORE THE VALUE NODE ITSELF.  A successful add (replace) evaluates the parent of
+    `path`, writes that ONE cell and nothing else, allocates nothing, and afterwards the step from
+    the parent by the last token leads to the caller's node `v` — pointer-identical, not a copy.
+    (This is the documented sharing that made D30 possible one level up: pipeline.PatchOp used to
+    pass its own value node here.) -/
+theorem heap_add_stores_value_node (v : Addr) (path : Path) (h h' : Heap) (root : Addr) :
+    (doAddH (some v) path h root = (h', .ok ()) →
+      ∃ par, evalH h root (parent path) = some par ∧ stepH h' par (lastSegment path) = some v ∧
+        h'.size = h.size ∧ ∀ b, b ≠ par → h'.get? b = h.get? b) ∧
+    (doReplaceH (some v) path h root = (h', .ok ()) →
+      ∃ par, evalH h root (parent path) = some par ∧ stepH h' par (lastSegment path) = some v ∧
+        h'.size = h.size ∧ ∀ b, b ≠ par → h'.get? b = h.get? b) := by
+  constructor
+  · intro he
+    rcases doAddH_cases (some v) path h root with h1 | ⟨v', par, cell', hv, hp, h1, hc⟩
+    · rw [h1] at he; cases he
+    · rw [h1] at he
+      cases hv
+      simp only [Prod.mk.injEq, and_true] at he
+      subst he
+      exact ⟨par, hp, stepH_write_self_add hc, Heap.size_write _ _ _,
+        fun b hb => Heap.get?_write_ne h cell' hb⟩
+  · intro he
+    rcases doReplaceH_cases (some v) path h root with h1 | h1 | ⟨v', n, par, cell', hv, _, hp, h1, hc⟩
+    · rw [h1] at he; cases he
+    · rw [h1] at he; cases he
+    · rw [h1] at he
+      cases hv
+      simp only [Prod.mk.injEq, and_true] at he
+      subst he
+      exact ⟨par, hp, stepH_write_self_repl hc, Heap.size_write _ _ _,
+        fun b hb => Heap.get?_write_ne h cell' hb⟩
+
+/-- COPY IS FRESH.  A successful copy clones the node at `from` (`h1`: the heap after the Clone),
+    writes the ONE (old) parent cell of `path`, the step from that parent by the last token leads
+    to the clone root `c`, and EVERY cell reachable from `c` afterwards — containers, lists,
+    leaves — was allocated by this copy: the copied value shares no object with the source nor with
+    anything else that existed. -/
+theorem heap_copy_fresh (f path : Path) (h h' : Heap) (root : Addr) (hcl : h.Closed) (hroot : root < h.size)
+    (he : moveOrCopyH (some f) path h root false = (h', .ok ())) :
+    ∃ n h1 c par, evalH h root f = some n ∧ cloneF h.size h n = some (h1, c) ∧
+      evalH h root (parent path) = some par ∧ par < h.size ∧
+      stepH h' par (lastSegment path) = some c ∧ h'.size = h1.size ∧
+      (∀ b, b < h.size → b ≠ par → h'.get? b = h.get? b) ∧
+      ∀ b, Reach h' c b → h.size ≤ b ∧ b < h1.size := by
+  obtain ⟨n, h1, c, par, cell', hn, hc, hp, hpar, hh, hcell⟩ := copy_shape hcl hroot he
+  have hl := (cloneF_spec h.size h n h1 c hc).1
+  refine ⟨n, h1, c, par, hn, hc, hp, hpar, ?_, ?_, ?_, copy_fresh hc hpar hh⟩
+  · rw [hh]; exact stepH_write_self_add hcell
+  · rw [hh]; exact Heap.size_write _ _ _
+  · intro b hb hne
+    rw [hh, Heap.get?_write_ne h1 cell' hne, Heap.get?_eq_of_le hl hb]
+
+/-- COPY IS INDEPENDENT, both ways.  After a successful copy (clone root `c`, attached to the parent
+    cell `par`):
+    (i) any sequence of in-place writes to cells of the copy (or allocated later) — in particular
+        any builder calls on nodes below the copy — leaves the abstraction of every old root that
+        does not contain the destination unchanged: the SOURCE node, unless the copy was placed
+        inside the source itself, and every other part of the document;
+    (ii) any sequence of in-place writes to other cells (old ones — the source's —, or allocated
+        later) leaves the abstraction of the copy unchanged. -/
+theorem heap_copy_independent (f path : Path) (h h' h2 : Heap) (root : Addr) (hcl : h.Closed)
+    (hroot : root < h.size) (he : moveOrCopyH (some f) path h root false = (h', .ok ())) :
+    ∃ (n : Addr) (h1 : Heap) (c par : Addr), evalH h root f = some n ∧ cloneF h.size h n = some (h1, c) ∧
+      h'.size = h1.size ∧
+      evalH h root (parent path) = some par ∧ stepH h' par (lastSegment path) = some c ∧
+      (Writes (fun _ b => h.size ≤ b) h' h2 →
+        ∀ (g : Nat) (x : Addr) (nx : Node), absH g h x = some nx → ¬ Reach h x par →
+          absH g h2 x = some nx) ∧
+      (Writes (fun _ b => b < h.size ∨ h1.size ≤ b) h' h2 →
+        ∀ (g : Nat) (m : Node), absH g h' c = some m → absH g h2 c = some m) := by
+  obtain ⟨n, h1, c, par, cell', hn, hc, hp, hpar, hh, hcell⟩ := copy_shape hcl hroot he
+  refine ⟨n, h1, c, par, hn, hc, by rw [hh]; exact Heap.size_write _ _ _, hp,
+    by rw [hh]; exact stepH_write_self_add hcell, ?_, ?_⟩
+  · intro hw g x nx hx hnr
+    exact copy_independent_source hc hh hw hx hnr
+  · intro hw g m hm
+    exact copy_independent_copy hc hpar hh hw hm
+
+/-- the same for literal builder histories (AddValue / AddContainer / AddList / Remove / Set /
+    Append / Clear on cells of the copy, resp. on other cells) -/
+theorem heap_copy_independent_ops (f path : Path) (h h' h2 : Heap) (root : Addr) (hcl : h.Closed)
+    (hroot : root < h.size) (he : moveOrCopyH (some f) path h root false = (h', .ok ()))
+    (ops : List Ytk.Heap.Op) (ha : applyOps h' ops = some h2) :
+    ∃ (n : Addr) (h1 : Heap) (c par : Addr), evalH h root f = some n ∧ cloneF h.size h n = some (h1, c) ∧
+      h'.size = h1.size ∧
+      evalH h root (parent path) = some par ∧ stepH h' par (lastSegment path) = some c ∧
+      ((∀ op ∈ ops, h.size ≤ op.target) →
+        ∀ (g : Nat) (x : Addr) (nx : Node), absH g h x = some nx → ¬ Reach h x par →
+          absH g h2 x = some nx) ∧
+      ((∀ op ∈ ops, op.target < h.size ∨ h1.size ≤ op.target) →
+        ∀ (g : Nat) (m : Node), absH g h' c = some m → absH g h2 c = some m) := by
+  obtain ⟨n, h1, c, par, hn, hc, hsz, hp, hs, k1, k2⟩ := heap_copy_independent f path h h' h2 root hcl hroot he
+  exact ⟨n, h1, c, par, hn, hc, hsz, hp, hs, fun hq => k1 (applyOps_writes hq ha),
+    fun hq => k2 (applyOps_writes hq ha)⟩
+
+/-- MOVE RE-ATTACHES THE VERY NODE.  A successful move to another location allocates NOTHING
+    (`h'.size = h.size`), writes at most two cells — the parent of `from` (detach) and the parent of
+    `path`, evaluated after the detach (attach) — and the step from that parent by the last token
+    leads to the node `n` that `from` resolved to: the same object, not a copy. -/
+theorem heap_move_same_node (f path : Path) (h h' : Heap) (root : Addr) (hne : f ≠ path)
+    (he : moveOrCopyH (some f) path h root true = (h', .ok ())) :
+    ∃ n pf par, evalH h root f = some n ∧ evalH h root (parent f) = some pf ∧
+      stepH h' par (lastSegment path) = some n ∧ h'.size = h.size ∧
+      ∀ b, b ≠ pf → b ≠ par → h'.get? b = h.get? b := by
+  obtain ⟨n, pf, cellR, par, cell', hn, hpf, _, _, hc, hh⟩ := move_shape hne he
+  refine ⟨n, pf, par, hn, hpf, ?_, ?_, ?_⟩
+  · rw [hh]; exact stepH_write_self_add hc
+  · rw [hh, Heap.size_write, Heap.size_write]
+  · intro b h1 h2
+    rw [hh, Heap.get?_write_ne _ _ h2, Heap.get?_write_ne _ _ h1]
+
+/-- … and moving a node onto its own location is a successful no-op on the heap. -/
+theorem heap_move_same_location (f : Path) (h : Heap) (root n : Addr) (hn : evalH h root f = some n) :
+    moveOrCopyH (some f) f h root true = (h, .ok ()) := by
+  unfold moveOrCopyH moveOrCopyWith
+  simp [hn]
+
+/-- FAILURE RESTORES.  On an acyclic heap whose children maps have unique keys (every heap the
+    API builds), an operation that does not succeed (error or panic outcome) leaves EVERY existing
+    cell exactly as it was — hence the abstraction of the document and of every other root —, and
+    for every operation except copy the heap is literally the old one (a failing copy has allocated
+    its Clone, which stays unattached; a failing move's rollback re-creates the parent cell of
+    `from` cell-for-cell, `remove_add_back`). -/
+theorem heap_patch_failure_restores (o : HOpObj) (h : Heap) (root : Addr) (rank : Addr → Nat)
+    (hr : h.RankedBy rank) (hm : h.MapsOk) (hfail : (patchDoH o h root).2 ≠ .ok ()) :
+    h ≤ (patchDoH o h root).1 ∧ (∀ b, b < h.size → (patchDoH o h root).1.get? b = h.get? b) ∧
+    (∀ (g : Nat) (x : Addr) (n : Node), absH g h x = some n → absH g (patchDoH o h root).1 x = some n) ∧
+    (o.op ≠ "copy" → (patchDoH o h root).1 = h) := by
+  obtain ⟨hl, heq⟩ := patchDoH_failure hr hm hfail
+  exact ⟨hl, fun b hb => Heap.get?_eq_of_le hl hb, fun g x n hn => absH_mono hl g x n hn, heq⟩
+
+/-! ### Non-vacuity and the pre-fix shape (D13)
+
+  `pHeap`: 0 nilLeaf · 1 leaf 1 · 2 list [#1, nilLeaf] · 3 {x: #1} · 4 {a: #2, b: #3} (root). -/
+def pHeap : Heap := ⟨[.leaf Scalar.null, .leaf ⟨"int", "1"⟩, .list [1, 0], .cont [("x", 1)],
+  .cont [("a", 2), ("b", 3)]]⟩
+
+/-- copy /a → /c succeeds, the copy is three new cells, the source list is untouched -/
+theorem nonvacuous_heap_copy :
+    (moveOrCopyH (some ["a"]) ["c"] pHeap 4 false).2 = .ok () ∧
+    (moveOrCopyH (some ["a"]) ["c"] pHeap 4 false).1.size = 8 ∧
+    evalH (moveOrCopyH (some ["a"]) ["c"] pHeap 4 false).1 4 ["c"] = some 7 ∧
+    evalH (moveOrCopyH (some ["a"]) ["c"] pHeap 4 false).1 4 ["a"] = some 2 := by decide +kernel
+
+/-- move /a → /b/y: no allocation, the node found at /b/y is the node that was at /a -/
+theorem nonvacuous_heap_move :
+    (moveOrCopyH (some ["a"]) ["b", "y"] pHeap 4 true).2 = .ok () ∧
+    (moveOrCopyH (some ["a"]) ["b", "y"] pHeap 4 true).1.size = 5 ∧
+    evalH (moveOrCopyH (some ["a"]) ["b", "y"] pHeap 4 true).1 4 ["b", "y"] = some 2 ∧
+    evalH (moveOrCopyH (some ["a"]) ["b", "y"] pHeap 4 true).1 4 ["a"] = none := by decide +kernel
+
+/-- a move whose add fails after the detach (target parent /q missing) restores the heap -/
+theorem nonvacuous_heap_move_rollback :
+    moveOrCopyH (some ["a"]) ["q", "z"] pHeap 4 true = (pHeap, .err) := by decide +kernel
+
+/-- NEGATIVE (pre-fix shape of copy, D13): without the Clone the very node is attached twice — the
+    "copy" at /c IS the source at /a, so an edit below one shows at the other. -/
+theorem heap_copy_noClone_aliases :
+    (copyNoClone (some ["a"]) ["c"] pHeap 4).2 = .ok () ∧
+    evalH (copyNoClone (some ["a"]) ["c"] pHeap 4).1 4 ["c"] = some 2 ∧
+    evalH (copyNoClone (some ["a"]) ["c"] pHeap 4).1 4 ["a"] = some 2 := by decide +kernel
+
+end heap
 
 end Ytk.C09
